@@ -56,6 +56,10 @@ pub fn universe() -> Vec<(String, Option<J>)> {
         J::int(i64::MAX),
         J::int(i64::MAX - 1),
         J::int(i64::MIN),
+        // integers above i64::MAX (a document can hold them; serde_json stores them as u64)
+        J::uint(9223372036854775808),
+        J::uint(18446744073709551614),
+        J::uint(18446744073709551615),
         // floats far beyond 2^53 (judged against floats)
         J::float(-1e19),
         J::float(-9.5e18),
@@ -75,6 +79,11 @@ pub fn universe() -> Vec<(String, Option<J>)> {
         J::Arr(vec![J::int(1)]),
         J::Arr(vec![J::float(1.0)]),
         J::Arr(vec![J::int(1), J::Arr(vec![J::int(2)])]),
+        // containers that differ only in a float's last bit
+        J::Arr(vec![J::float(0.3), J::float(1.5)]),
+        J::Arr(vec![J::float(0.30000000000000004), J::float(1.5)]),
+        J::Obj(vec![("a".into(), J::float(0.3))]),
+        J::Obj(vec![("a".into(), J::float(0.30000000000000004))]),
         J::Arr(vec![J::Arr(vec![J::int(1)])]),
         J::Arr(vec![J::int(1), J::int(2)]),
         J::Arr(vec![J::int(2), J::int(1)]),
@@ -176,6 +185,7 @@ fn literal_of(v: &J, alt: usize) -> Option<Literal> {
                 _ => Literal::int(*i),
             }
         }
+        J::Num(N::Big(_)) => return None,
         J::Num(N::Float(f)) => {
             let t = if *f == 0.0 && f.is_sign_negative() {
                 "-0.0".to_string()
@@ -243,8 +253,16 @@ fn kind(v: &Option<J>) -> &'static str {
 
 pub fn run(ctx: &Ctx) -> Result<Evidence, String> {
     let armed: Armed = arm(ctx, &|_| None)?;
-    let _ = &armed;
     let u = universe();
+    // open finding: integers above i64::MAX are visible to the engine only through as_f64. The
+    // finding explains exactly one outcome: the verdict computed on the f64 images of both operands.
+    let is_big = |v: &Option<J>| matches!(v, Some(J::Num(N::Big(_))));
+    let f64_image = |v: &Option<J>| -> Option<J> {
+        match v {
+            Some(J::Num(n)) => Some(J::float(n.as_f64())),
+            other => other.clone(),
+        }
+    };
     let n = u.len();
     // form pairs: quick = a fixed covering set, thorough = all 36
     let mut form_pairs: Vec<(Form, Form)> = vec![];
@@ -277,7 +295,7 @@ pub fn run(ctx: &Ctx) -> Result<Evidence, String> {
         // zone U2: a number outside the exact range meets a float (or is one)
         {
             let out_of_range = |v: &Option<J>| matches!(v, Some(J::Num(x)) if !x.in_exact_range());
-            let is_int = |v: &Option<J>| matches!(v, Some(J::Num(N::Int(_))));
+            let is_int = |v: &Option<J>| matches!(v, Some(J::Num(x)) if x.is_integer_typed());
             let both_num = matches!((va, vb), (Some(J::Num(_)), Some(J::Num(_))));
             let is_float = |v: &Option<J>| matches!(v, Some(J::Num(N::Float(_))));
             if both_num && (out_of_range(va) || out_of_range(vb)) && !(is_int(va) && is_int(vb)) && !(is_float(va) && is_float(vb)) {
@@ -321,7 +339,14 @@ pub fn run(ctx: &Ctx) -> Result<Evidence, String> {
         match (observe(&text), observe(&text_neg)) {
             (Ok(p), Ok(q)) => {
                 table[idx(fp_i, a_i, b_i, op_i)].store(if p { 2 } else { 1 }, Ordering::Relaxed);
-                if p != expected {
+                if (is_big(va) || is_big(vb)) && armed.has("int_beyond_i64") && p != expected {
+                    let model = compare(op, f64_image(va).as_ref(), f64_image(vb).as_ref());
+                    if p == model && q != p {
+                        ctx.add_known(&armed.id_of("int_beyond_i64"), 1);
+                    } else {
+                        report(format!("comparison {} {} {} ({:?} {:?}) evaluated to {}; RFC 9535 says {}, and the open finding about integers beyond i64 explains only {}", u[a_i].0, op.text(), u[b_i].0, fa, fb, p, expected, model));
+                    }
+                } else if p != expected {
                     report(format!("comparison {} {} {} ({:?} {:?}) evaluated to {} but RFC 9535 says {}", u[a_i].0, op.text(), u[b_i].0, fa, fb, p, expected));
                 } else if q == p {
                     report(format!("!(L {} R) and (L {} R) both select {} for {} / {}", op.text(), op.text(), p, u[a_i].0, u[b_i].0));
@@ -337,7 +362,9 @@ pub fn run(ctx: &Ctx) -> Result<Evidence, String> {
             acc.sample(json!({"query": text, "lhs": u[a_i].0, "rhs": u[b_i].0, "expected": expected}));
         }
         // H3: watch the comparison as actually performed, in a context that masks its result
-        if i % 5 == 0 {
+        // (the hook reports an integer above i64::MAX as the float the engine sees: such cases are
+        // judged at the boundary only)
+        if i % 5 == 0 && !(is_big(va) || is_big(vb)) {
             let mtext = render(&masked, &mut Spelling::canonical());
             let (_, events) = with_events(|| libapi::query_with_path(&mtext, &doc.value));
             for e in events {
@@ -389,6 +416,10 @@ pub fn run(ctx: &Ctx) -> Result<Evidence, String> {
                     }
                     if ge != (gt || eq) {
                         bad.push(">= is not (> or ==)");
+                    }
+                    if (is_big(&u[a].1) || is_big(&u[b].1)) && armed.has("int_beyond_i64") {
+                        // the laws fail there as a consequence of the open finding
+                        continue;
                     }
                     let both_num = matches!((&u[a].1, &u[b].1), (Some(J::Num(_)), Some(J::Num(_))));
                     let both_str = matches!((&u[a].1, &u[b].1), (Some(J::Str(_)), Some(J::Str(_))));
